@@ -12,6 +12,8 @@ import copy
 import json
 import os
 import sys
+import threading
+import time
 sys.path.insert(0, '/verif/tools')
 from vf import core, tlc
 
@@ -26,6 +28,7 @@ BASE = dict(Family='"agg"', Vals='-3..3', Shards='{0, 1, 2}', K1='<<"a">>', K2='
             TopVals='-3..3', MaxItems=0, MaxN=3, IntMax=INTMAX, IntMin=-INTMAX,
             MeanFloorsAtOne='FALSE', ScalarShardZero='FALSE', ConcatGroupKey='FALSE')
 AGG_INV = ['RefMeanValid', 'DirectEqualsReference', 'PartitionLaw', 'ReplicasCountOnce', 'GroupsAreKeyTuples', 'GroupedLaw']
+SCALAR_INV = AGG_INV[:4]  # one group only: the grouped laws coincide with the scalar ones
 # adversarial concretisation of the group-key tokens: ("a","bc") and ("ab","c") concatenate to the same bytes
 K1, K2 = ['a', 'ab'], ['c', 'bc']
 
@@ -96,88 +99,90 @@ if c.replay:
     c.cov.update(states=1, transitions=1, traces_validated_against_impl=0, samples=[obj.get('behaviour', obj.get('case'))])
     c.finish()
 
-# ---- 1. design: TLC exhaustive, three state graphs (dumped: every state becomes an implementation case) ----
+# ---- 1+2. design: TLC exhaustive, three state graphs (dumped), and spec -> code: every state becomes an implementation case ----
 if c.quick:
     fam = {
-        'scalar': ('agg', dict(Vals='-3..3', Shards='{0, 1, 2}', MaxRows=4), AGG_INV),
+        'scalar': ('agg', dict(Vals='-3..3', Shards='{0, 1, 2}', MaxRows=4), SCALAR_INV),
         'group': ('agg', dict(Vals='{-2, 0, 3}', Shards='{0, 1}', K1=tla_strs(K1), K2=tla_strs(K2), MaxRows=3, Grouped='TRUE', MaxN=2), AGG_INV),
         'top': ('top', dict(Family='"top"', TopVals='-3..3', MaxItems=4, MaxN=3), ['TopNLaw']),
     }
 else:
     fam = {
-        'scalar': ('agg', dict(Vals='-3..3', Shards='{0, 1, 2}', MaxRows=5), AGG_INV),
+        'scalar': ('agg', dict(Vals='-3..3', Shards='{0, 1, 2}', MaxRows=5), SCALAR_INV),
         'group': ('agg', dict(Vals='{-2, 0, 3}', Shards='{0, 1}', K1=tla_strs(K1), K2=tla_strs(K2), MaxRows=4, Grouped='TRUE', MaxN=3), AGG_INV),
         'top': ('top', dict(Family='"top"', TopVals='-3..3', MaxItems=5, MaxN=3), ['TopNLaw']),
     }
 
 
+launch = threading.Lock()
+
+
+def harness(args, timeout=1500):
+    # harness runs overlap; their result files are named by the millisecond they start in
+    with launch:
+        time.sleep(0.01)
+    return c.run_harness(binp, args, timeout=timeout)
+
+
 def explore(name):
+    """TLC on one family, then every state of its graph replayed on the real code."""
     mode, consts, invs = fam[name]
     mod, files, d = model(name.capitalize(), consts, invs)
-    r = tlc.run(mod + '.tla', mod + '.cfg', tag='c10' + name, files=files, dump=True, workers=5, timeout=1500, coverage=False)
-    return name, r, d
-
-
-with cf.ThreadPoolExecutor(3) as ex:
-    runs = {n: (r, d) for n, r, d in ex.map(explore, list(fam))}
-states = transitions = 0
-behs, tlc_stats = {}, {}
-for name, (r, d) in runs.items():
+    r = tlc.run(mod + '.tla', mod + '.cfg', tag='c10' + name, files=files, dump=True, workers=5, timeout=1500)
     if r.violated or r.error or r.timed_out or not r.ok:
-        c.inconclusive('TLC on Aggregation.tla (%s): violated=%s error=%s timeout=%s\n%s' % (name, r.violated, r.error, r.timed_out, r.output[-1500:]))
+        return name, r, d, None, None, 'TLC on Aggregation.tla (%s): violated=%s error=%s timeout=%s\n%s' % (name, r.violated, r.error, r.timed_out, r.output[-1500:])
     nodes, edges, inits = tlc.graph(r)
     tlc.cleanup(r)
     b = tree_behaviours(nodes, edges, inits)
     if b is None or len(nodes) != r.distinct:
-        c.inconclusive('state graph of family %s is not the expected tree (%d nodes, %d distinct)' % (name, len(nodes), r.distinct))
-    behs[name] = b
+        return name, r, d, None, None, 'state graph of family %s is not the expected tree (%d nodes, %d distinct)' % (name, len(nodes), r.distinct)
+    c.log('TLC Aggregation[%s]: %d distinct states, invariants hold (%.1fs) -> %d behaviours' % (name, r.distinct, r.wall, len(b)))
+    f = c.write_behaviours(name, b)
+    res = harness(harness_args(mode, d) + ['-in', f])
+    os.remove(f)
+    return name, r, d, b, res, None
+
+
+# the three named deviations of the pinned code: with each switched on TLC must find the counterexample (this shows the
+# invariants are not vacuous and documents the spec-level shape of what the replay may find)
+def quirk(q):
+    mod, files, d = model('Q' + q, dict(Vals='{-2, 0, 3}', Shards='{0, 1}', K1=tla_strs(K1), K2=tla_strs(K2), MaxRows=3, Grouped='TRUE', MaxN=1, **{q: 'TRUE'}), AGG_INV)
+    return q, tlc.run(mod + '.tla', mod + '.cfg', tag='c10q' + q, files=files, workers=2, timeout=600)
+
+
+# ---- 3. int64 extremes: metamorphic, outside the bounded TLC domain ----
+nx = 3000 if c.quick else 30000
+
+with cf.ThreadPoolExecutor(8) as ex:
+    fut_fam = [ex.submit(explore, n) for n in ('scalar', 'group', 'top')]
+    fut_q = [ex.submit(quirk, q) for q in ('MeanFloorsAtOne', 'ScalarShardZero', 'ConcatGroupKey')]
+    fut_x = ex.submit(harness, ['-mode', 'extremes', '-n', str(nx), '-maxrep', '2'], 900)
+    fam_out = [f.result() for f in fut_fam]
+    quirk_out = [f.result() for f in fut_q]
+    xres = fut_x.result()
+
+states = transitions = 0
+behs, tlc_stats, results, args_of, all_viol, quirks = {}, {}, {}, {}, [], {}
+for name, r, d, b, res, err in fam_out:
+    if err:
+        c.inconclusive(err)
+    if res.get('inconclusive'):
+        c.inconclusive('; '.join(res['inconclusive'][:3]))
+    behs[name], results[name], args_of[name] = b, res, harness_args(fam[name][0], d)
     states += r.distinct
     transitions += r.generated
     tlc_stats[name] = dict(distinct=r.distinct, generated=r.generated, depth=r.depth, wall_s=round(r.wall, 1), behaviours=len(b),
                            constants={k: d[k] for k in ('Vals', 'Shards', 'K1', 'K2', 'MaxRows', 'MaxRep', 'TopVals', 'MaxItems', 'MaxN')})
-    c.log('TLC Aggregation[%s]: %d distinct states, invariants hold (%.1fs) -> %d behaviours' % (name, r.distinct, r.wall, len(b)))
-    del nodes, edges
-
-# the three named deviations of the pinned code: with each switched on TLC must find the counterexample (this shows the
-# invariants are not vacuous and documents the spec-level shape of what the replay may find)
-quirks = {}
-
-
-def quirk(q):
-    mod, files, d = model('Q' + q, dict(Vals='{-2, 0, 3}', Shards='{0, 1}', K1=tla_strs(K1), K2=tla_strs(K2), MaxRows=3, Grouped='TRUE', MaxN=1, **{q: 'TRUE'}), AGG_INV)
-    return q, tlc.run(mod + '.tla', mod + '.cfg', tag='c10q', files=files, workers=2, timeout=600)
-
-
-with cf.ThreadPoolExecutor(3) as ex:
-    for q, r in ex.map(quirk, ['MeanFloorsAtOne', 'ScalarShardZero', 'ConcatGroupKey']):
-        if not r.violated:
-            c.inconclusive('spec self-check: deviation %s does not violate any invariant (error=%s)' % (q, r.error))
-        quirks[q] = dict(violates=r.violated, rows=(r.trace[-1].get('rows') if r.trace else None))
-c.log('spec self-check: each named deviation violates an invariant: %s' % {k: v['violates'] for k, v in quirks.items()})
-
-# ---- 2. spec -> code: every state replayed on the real code ----
-results, args_of, all_viol = {}, {}, []
-for name in ('scalar', 'group', 'top'):
-    mode, consts, _ = fam[name]
-    d = dict(BASE)
-    d.update(consts)
-    args = harness_args(mode, d)
-    args_of[name] = args
-    f = c.write_behaviours(name, behs[name])
-    res = c.run_harness(binp, args + ['-in', f], timeout=1500)
-    os.remove(f)
-    if res.get('inconclusive'):
-        c.inconclusive('; '.join(res['inconclusive'][:3]))
-    results[name] = res
     c.log('replayed %s: %d behaviours, %d states compared, %d mismatches %s' % (
         name, res['behaviours'], res['stats'].get('states_compared', 0), res['stats'].get('violations_total', 0),
         sorted(k[4:] for k in res['stats'] if k.startswith('sig:'))))
     for v in res['violations']:
         all_viol.append((name, v))
-
-# ---- 3. int64 extremes: metamorphic, outside the bounded TLC domain ----
-nx = 3000 if c.quick else 30000
-xres = c.run_harness(binp, ['-mode', 'extremes', '-n', str(nx), '-maxrep', '2'], timeout=900)
+for q, r in quirk_out:
+    if not r.violated:
+        c.inconclusive('spec self-check: deviation %s does not violate any invariant (error=%s)' % (q, r.error))
+    quirks[q] = dict(violates=r.violated, rows=(r.trace[-1].get('rows') if r.trace else None))
+c.log('spec self-check: each named deviation violates an invariant: %s' % {k: v['violates'] for k, v in quirks.items()})
 if xres.get('inconclusive'):
     c.inconclusive('; '.join(xres['inconclusive'][:3]))
 c.log('extremes: %d cases, %d mismatches' % (xres['stats'].get('extreme_cases', 0), xres['stats'].get('violations_total', 0)))
